@@ -44,11 +44,11 @@ cls('Model', fields=dict(
     IncomeExclusions=List(Tup(Ref('Sector'), STR)), CurrencyZoneList=List(Ref('CurrencyZone')),
     State=STR, DefaultCurrency=STR, ExternalSector=Opt(Ref('ExternalSector')),
     FinalEquationBlock=Ref('EquationBlock')))
-cls('Country', fields=dict(SectorList=List(Ref('Sector')), CurrencyZone=Opt(Ref('CurrencyZone')), Currency=STR))
+cls('Country', fields=dict(Parent=Ref('Model'), SectorList=List(Ref('Sector')), CurrencyZone=Opt(Ref('CurrencyZone')), Currency=STR))
 cls('CurrencyZone', fields=dict(Currency=STR, CountryList=List(Ref('Country'))))
 
 # sector.py
-cls('Sector', fields=dict(CurrencyZone=Ref('CurrencyZone'), FullCode=STR, HasF=BOOL, IsTaxable=BOOL,
+cls('Sector', fields=dict(Parent=Ref('Country'), CurrencyZone=Ref('CurrencyZone'), FullCode=STR, HasF=BOOL, IsTaxable=BOOL,
                           EquationBlock=Ref('EquationBlock')))
 cls('Market', fields=dict(ResidualSupply=Opt(Ref('Sector')), OtherSuppliers=List(Tup(Ref('Sector'), STR))))
 cls('FinancialAssetMarket', fields=dict(IssuerShortCode=STR, SearchListSource=Ref('CurrencyZone')))
